@@ -60,6 +60,16 @@ CHECKS = {
    note="Trusted: Coq kernel; extraction/driver; Python's eval is outside the model (integer expression subset supplied as ASTs keyed by source text; anything else is reported unsupported, never agreement); harness hand_expand transcription. Axioms: none.",
    technique="Coq proofs on a character-level substitution model + text-level and compile-level correspondence",
    design="5 C13"),
+ "C02": dict(
+   text="Proof on the system model: an import resolves to the first directory (importing directory, then the include list in order) holding name.sys xor name.comp, both-present is an ambiguity error, none is an error; the parameter environment binds the declared names to the given arguments in order and a different count is an error; the emitted item of a binding carries star = binding XOR declaration and re-reads to the port as declared, reverse-complemented iff the binding is starred; every name a component instance emits carries the instance's prefix and compilation keeps the prefix it is given (6 theorems, closed). The recursion through nested systems (load_file / add_component / emit) is tied to the code by correspondence on generated libraries (sub-directories, include directories, aliases, shared signals, stars on both sides, parameterised templates, decoy files), and the composed denotation is compared with the specification oracle per case.",
+   note="Trusted: Coq kernel; extraction/driver; harness/pepper.py (SysGen, printers, expected_system_den); pyparsing grammar of .sys files exercised not modelled; os.path modelled by path_join/dirname/normalize. Disjointness of instances is proved as 'names carry the instance prefix'; that distinct instance names give prefix-disjoint name sets relies on instance names containing no '-' (the .sys grammar's identifier). Axioms: none.",
+   technique="Coq proofs on the system model + correspondence on generated libraries + denotation oracle",
+   design="5 C02"),
+ "C12": dict(
+   text="Proof (base case): fixing a base sequence replaces each position's code by a code denoting exactly the intersection of the old and the fixed code; a wrong length and an empty intersection are errors; only the addressed sequence changes, its length is kept, and a failed or warned fix changes nothing; a starred domain is fixed through the reverse complement (5 theorems, closed). The distribution over composite objects (offsets through nested super-sequences, strands, multi-strand structures, signals bound directly or through nested systems) is the model's fix_refs / fix_signal, compared with compiler.compiler(--fixed) on generated components and system libraries and with a per-nucleotide intersection oracle over the denotation.",
+   note="Trusted: as C02 plus the harness oracle expected_fixed. Partial: the composite distribution is checked per case, not proved. Axioms: none.",
+   technique="Coq proofs on the fix model + correspondence + per-nucleotide oracle",
+   design="5 C12"),
 }
 
 checks = []
